@@ -161,11 +161,17 @@ def lake_build(targets):
     return p.returncode == 0, out
 
 
+_model_exe = None
+
+
 def model_exe():
-    ok, out = lake_build(["opnmodel"])
-    if not ok:
-        raise RuntimeError("opnmodel build failed:\n" + out[-6000:])
-    return os.path.join(LEAN, ".lake", "build", "bin", "opnmodel")
+    global _model_exe
+    if _model_exe is None:
+        ok, out = lake_build(["opnmodel"])
+        if not ok:
+            raise RuntimeError("opnmodel build failed:\n" + out[-6000:])
+        _model_exe = os.path.join(LEAN, ".lake", "build", "bin", "opnmodel")
+    return _model_exe
 
 
 FORBIDDEN = re.compile(r"\bsorry\b|\badmit\b|^axiom |native_decide|bv_decide|implemented_by|unsafe |maxHeartbeats 0")
